@@ -35,6 +35,7 @@ struct verif_ti _ZTISt8bad_cast = {VERIF_SI, "St8bad_cast", &_ZTISt9exception};
 struct verif_ti _ZTISt17bad_function_call = {VERIF_SI, "St17bad_function_call", &_ZTISt9exception};
 struct verif_ti _ZTISt19bad_optional_access = {VERIF_SI, "St19bad_optional_access", &_ZTISt9exception};
 struct verif_ti _ZTISt18bad_variant_access = {VERIF_SI, "St18bad_variant_access", &_ZTISt9exception};
+struct verif_ti _ZTIPKc = {VERIF_CI, "PKc", 0};   /* `throw "literal"` (util/string.h CheckNumFormatSpecifiers, runtime-evaluated under -Dconsteval=constexpr) */
 int verif_exc_matches(void* tinfo) {
   if (tinfo == 0) return 1;
   struct verif_ti* t = (struct verif_ti*)verif_exc_type;
